@@ -215,7 +215,7 @@ def main(tier):
                     run.cap('deadline after %d of %d tables' % (ntab, len(tables)))
                 pool.terminate()
                 break
-    if nclients < 10000 and not run.violations:
+    if nclients < 10000 and not run.violations and not run.capped:
         raise common.HarnessError('vacuous: %d client traces' % nclients)
     cov = {'evaluations': nclients, 'distinct_nontrivial': nclients,
            'rule': 'one evaluation = one (rule table, client attribute vector) pair run through the real daemon started on that table; all pairs are distinct; every one reaches the rule scan '
